@@ -676,14 +676,16 @@ func redactScalarValue(keyPath []string, v interface{}, isSearchStage bool, isSe
 		return v
 	}
 	parentKey = keyPath[len(keyPath)-1]
-	switch parentKey {
-	case "$date":
-		return redactString(v.(string), RedactedISODate)
-	case "$oid":
-		return redactString(v.(string), RedactedObjectId)
-	case "base64":
-		if grandParentKey == "$binary" {
-			return redactString(v.(string), RedactedUUID)
+	if str, ok := v.(string); ok {
+		switch parentKey {
+		case "$date":
+			return redactString(str, RedactedISODate)
+		case "$oid":
+			return redactString(str, RedactedObjectId)
+		case "base64":
+			if grandParentKey == "$binary" {
+				return redactString(str, RedactedUUID)
+			}
 		}
 	}
 	switch v.(type) {
